@@ -87,8 +87,15 @@ func (b *Buffer[K, V]) Add(n ReadBufItem[K, V]) *PolicyBuffers[K, V] {
 	tail := b.tail.Load()
 	size := tail - head
 	if size >= capacity {
-		// full buffer
-		return nil
+		// full buffer: normally the reader that claimed the last slot drains it,
+		// but if it could not get the token (the previous batch was still being
+		// applied) nobody would ever drain this stripe again, so a reader that
+		// finds the stripe full tries to drain it. The item itself is dropped.
+		if atomic.LoadPointer(&b.returned) == nil {
+			// being drained right now
+			return nil
+		}
+		return b.drain()
 	}
 	verifPoint(vpBufBeforeTailCAS)
 	if b.tail.CompareAndSwap(tail, tail+1) {
@@ -101,34 +108,47 @@ func (b *Buffer[K, V]) Add(n ReadBufItem[K, V]) *PolicyBuffers[K, V] {
 		}))
 		if size == capacity-1 {
 			// try return new buffer
-			verifPoint(vpBufBeforeTokenCAS)
-			if !atomic.CompareAndSwapPointer(&b.returned, b.policyBuffers, nil) {
-				// somebody already get buffer
-				return nil
-			}
-
-			pb := (*PolicyBuffers[K, V])(b.policyBuffers)
-			for i := 0; i < capacity; i++ {
-				index := int(head & mask)
-				verifPoint(vpBufDrainSlot)
-				v := atomic.LoadPointer(&b.buffer[index])
-				if v != nil {
-					// published
-					pb.Returned = append(pb.Returned, *castToPointer[K, V](v))
-					// release
-					atomic.StorePointer(&b.buffer[index], nil)
-				}
-				head++
-			}
-
-			verifPoint(vpBufBeforeHeadStore)
-			b.head.Store(head)
-			return pb
+			return b.drain()
 		}
 	}
 
 	// failed
 	return nil
+}
+
+// drain takes the token and hands out every published slot of a full buffer.
+// It returns nil if another reader holds the token or has drained already.
+func (b *Buffer[K, V]) drain() *PolicyBuffers[K, V] {
+	verifPoint(vpBufBeforeTokenCAS)
+	if !atomic.CompareAndSwapPointer(&b.returned, b.policyBuffers, nil) {
+		// somebody already get buffer
+		return nil
+	}
+	// head only moves while the token is held, so it is stable from here on
+	head := b.head.Load()
+	if b.tail.Load()-head < capacity {
+		// drained by somebody else in the meantime
+		atomic.StorePointer(&b.returned, b.policyBuffers)
+		return nil
+	}
+
+	pb := (*PolicyBuffers[K, V])(b.policyBuffers)
+	for i := 0; i < capacity; i++ {
+		index := int(head & mask)
+		verifPoint(vpBufDrainSlot)
+		v := atomic.LoadPointer(&b.buffer[index])
+		if v != nil {
+			// published
+			pb.Returned = append(pb.Returned, *castToPointer[K, V](v))
+			// release
+			atomic.StorePointer(&b.buffer[index], nil)
+		}
+		head++
+	}
+
+	verifPoint(vpBufBeforeHeadStore)
+	b.head.Store(head)
+	return pb
 }
 
 // Load all items in buffer, used in test only to update policy proactive proactively
